@@ -1,6 +1,7 @@
 package main
 
 import (
+	"go/token"
 	"go/types"
 	"sort"
 	"strings"
@@ -76,6 +77,7 @@ func checkC18(c *Check) {
 			}
 		})
 	}
+	c.contentScans(fns)
 	if nr < 7 {
 		c.Fail("C18-R1 lost instances: %d map ranges", nr)
 	}
@@ -428,4 +430,93 @@ func (c *Check) mapRangeSorted(fn *ssa.Function, rng *ssa.Range) (bool, string) 
 		}
 	}
 	return true, ""
+}
+
+// contentScans (R1): a YAML mapping node holds key0,value0,key1,value1,... in Content. A hand-written scan over
+// Content must visit every key whatever its position, or the outcome depends on the order of the mapping keys.
+// For a loop "idx from s step d while idx+k < len(Content)" whose smallest Content index is idx+a, that is
+// s+a == 0, d in {1,2} and k-a <= 1.
+func (c *Check) contentScans(fns []*ssa.Function) {
+	peel := func(v ssa.Value) (ssa.Value, int64) {
+		var k int64
+		for {
+			bo, ok := v.(*ssa.BinOp)
+			if !ok || bo.Op != token.ADD {
+				return v, k
+			}
+			if cst, isC := constInt(bo.Y); isC {
+				k += cst
+				v = bo.X
+				continue
+			}
+			if cst, isC := constInt(bo.X); isC {
+				k += cst
+				v = bo.Y
+				continue
+			}
+			return v, k
+		}
+	}
+	n := 0
+	for _, fn := range fns {
+		for _, b := range fn.Blocks {
+			ifi, ok := b.Instrs[len(b.Instrs)-1].(*ssa.If)
+			if !ok {
+				continue
+			}
+			cond, isB := ifi.Cond.(*ssa.BinOp)
+			if !isB || cond.Op != token.LSS {
+				continue
+			}
+			lenCall, _ := callOf(cond.Y)
+			if lenCall == nil || calleeFull(lenCall) != "builtin.len" || !strings.HasSuffix(Sym(lenCall.Call.Args[0]), ".Content") {
+				continue
+			}
+			base, k := peel(cond.X)
+			ph, isPhi := base.(*ssa.Phi)
+			if !isPhi || ph.Block() != b {
+				continue
+			}
+			n++
+			c.Analysed(fnName(fn))
+			inst := "scan over " + short(strings.TrimLeft(Sym(lenCall.Call.Args[0]), "*")) + " in " + fnName(fn) + " visits every mapping key"
+			var s0, d int64 = -99, -99
+			okForm := len(ph.Edges) == 2
+			for i, e := range ph.Edges {
+				pred := b.Preds[i]
+				if b.Dominates(pred) { // back edge
+					eb, ek := peel(e)
+					if eb != ssa.Value(ph) {
+						okForm = false
+					}
+					d = ek
+				} else if cst, isC := constInt(e); isC {
+					s0 = cst
+				} else {
+					okForm = false
+				}
+			}
+			// smallest index into Content used in the loop
+			var a int64 = 1 << 30
+			eachInstr(fn, func(i ssa.Instruction) {
+				ia, isIA := i.(*ssa.IndexAddr)
+				if !isIA || !b.Dominates(ia.Block()) || !strings.HasSuffix(Sym(ia.X), ".Content") {
+					return
+				}
+				ib, ik := peel(ia.Index)
+				if ib == ssa.Value(ph) && ik < a {
+					a = ik
+				}
+			})
+			if !okForm || a == 1<<30 {
+				c.Ob("R1", inst, cond.Pos(), false, "loop form not understood (index is not initial constant + constant step, or Content is not indexed by it)")
+				continue
+			}
+			ok2 := s0+a == 0 && (d == 1 || d == 2) && k-a <= 1
+			c.Ob("R1", inst, cond.Pos(), ok2, "loop starts at entry "+itoa(int(s0+a))+", steps by "+itoa(int(d))+" and stops while "+itoa(int(k-a+1))+" entries remain beyond the current one: a key in the last position(s) is never examined, so the result depends on the order of the mapping keys")
+		}
+	}
+	if n < 2 {
+		c.Fail("C18-R1 lost instances: %d Content scans", n)
+	}
 }
